@@ -380,6 +380,56 @@ def case_year_days(mon, fi, year):
     mon.cls("every-day-of-year", (fi, year), [meth, target, year])
 
 
+def case_targets(mon, fi, jde):
+    """The target strings are a closed set: anything else - a prefix, a
+    suffix, another case, an empty string, the two names run together - is
+    refused with ValueError, and the valid one given by keyword or
+    positionally means the same."""
+    from pymeeus.Epoch import Epoch
+    from pymeeus.Moon import Moon
+    meth, target, kind = FINDERS[fi]
+    f = getattr(Moon, meth)
+    valid = [t for (m, t, k) in FINDERS if m == meth]
+    bad = ["", target[:1], target[:-1], target[1:], target[:5],
+           target.upper(), target.capitalize(), target + " ", " " + target,
+           "".join(valid), valid[0] + valid[-1], "ern", "ing", "e", "none"]
+    for b in bad:
+        if b in valid:
+            continue
+        mon.evals += 1
+        try:
+            r = f(Epoch(jde), b)
+        except ValueError:
+            mon.ok("target.closed-set")
+            continue
+        except Exception as ex:
+            mon.dev("target.closed-set", {"finder": meth, "target": b,
+                                          "raised": repr(ex)})
+            continue
+        mon.dev("target.closed-set", {"finder": meth, "target": b,
+                                      "returned": repr(r)[:200]})
+    try:
+        a = f(Epoch(jde), target)
+        k = f(Epoch(jde), target=target)
+        same = snap_r(a) == snap_r(k)
+    except Exception as ex:
+        same, a, k = False, repr(ex), None
+    mon.check("target.closed-set", same,
+              {"finder": meth, "target": target, "positional": repr(a)[:120],
+               "keyword": repr(k)[:120]})
+    mon.cls("target-strings", (fi, jde), [meth, target])
+
+
+def snap_r(r):
+    if isinstance(r, tuple):
+        return tuple(snap_r(v) for v in r)
+    if hasattr(r, "_jde"):
+        return r._jde
+    if hasattr(r, "_deg"):
+        return r._deg
+    return r
+
+
 def case_seam(mon, fi, year):
     """Queries every quarter of a day from 20 December of `year` to
     12 January of the next one: across the New Year (where the finders'
@@ -415,7 +465,8 @@ def case_seam(mon, fi, year):
 
 
 CASES = {"history": history.case, "position": case_position, "sweep": case_sweep, "event": case_event,
-         "year_days": case_year_days, "seam": case_seam}
+         "year_days": case_year_days, "seam": case_seam,
+         "targets": case_targets}
 
 
 def run(mon, spec):
@@ -467,6 +518,10 @@ def run(mon, spec):
     for y in seams:
         mon.begin("seam", [fi, y])
         case_seam(mon, fi, y)
+    for _ in range(3):
+        q = jd_of_year(rng.uniform(-1999.0, 3999.0))
+        mon.begin("targets", [fi, q])
+        case_targets(mon, fi, q)
     for _ in range(nrand):
         q = jd_of_year(rng.uniform(-1999.0, 3999.0))
         mon.begin("event", [fi, q])
